@@ -38,31 +38,31 @@ FINDINGS += [
 FINDINGS += [
  # ---- C17 (remaining)
  K("C17", "C17 plookup.VerifyLookupTables never uses comt", "plookup VerifyLookupTables computes the folded commitment `comt` and never uses it: an unrelated honest permutation proof / other table rows are accepted (table binding check missing); not repaired here (needs the intended relation between comt and the permutation proof)", r"^C17 plookup \S+ kind=table .*bind=0", r"^1$", r"^0$", "ecc/*/fr/plookup/table.go:195-216", "C17 plookup bn254 kind=table tau=5 n=40 f=1,1,3 t=1,2,3,4 fb=_ tb=_ pa=5,6,7,8 mut=permFresh i=0 m=9 cf=1 perm=1 bind=0 vec=1"),
- K("C17", "C17 pedersen.BatchVerifyMultiVk empty batch panics", "pedersen BatchVerifyMultiVk panics (index 0) on the empty batch that BatchProve supports", r"^C17 pedersen \S+ batch .* b=_ ", r"^panic", r"^1$", "ecc/*/fr/pedersen/pedersen.go BatchVerifyMultiVk", "C17 pedersen bn254 batch g=1 s=- b=_ v=_ r=2 mode=multi mut=none i=0 m=1"),
- K("C17", "C17 mpcsetup.SameRatioMany with a length-2 slice first", "mpcsetup.SameRatioMany panics or rejects honest input when a group has several slices and a length-2 slice comes first (the kzg ceremony only uses single slices)", r"^C17 mpcsetup \S+ kind=ratio ", r"^(panic|0)$", r"^[01]$", "ecc/*/mpcsetup/mpcsetup.go:408-439,501-532", "C17 mpcsetup bn254 kind=ratio g1=1,2,4 g2=1,2;3,6"),
- K("C17", "C17 shplonk.BatchVerify short claimed-value row panics", "shplonk (and fflonk through it) BatchVerify panics (index in interpolate) on a malformed proof whose claimed-value row is shorter than its point set", r"^C17 (shplonk|fflonk) .*mut=cvDrop", r"^panic", r"^0$", "ecc/*/shplonk/shplonk.go BatchVerify/interpolate", ""),
- K("C17", "C17 fri size-1 domain panics", "fri: BuildProofOfProximity for a size-1 polynomial (nbSteps = 0) panics in deriveQueriesPositions (res[0])", r"^C17 friprove \S+ 1 ", r"^panic", r"^accept", "ecc/*/fr/fri/fri.go deriveQueriesPositions", "C17 friprove bn254 1 1"),
+ F('C17', 'C17 pedersen.BatchVerifyMultiVk empty batch panics', '3e34233', 'pedersen BatchVerifyMultiVk panicked on the empty batch', "", ""),
+ F('C17', 'C17 mpcsetup.SameRatioMany with a length-2 slice first', '36731cd', "mpcsetup.SameRatioMany panicked or rejected honest input when a group's first slices had length 2", "", ""),
+ F('C17', 'C17 shplonk.BatchVerify short claimed-value row panics', 'ee9fcd5', 'shplonk/fflonk BatchVerify panicked on a claimed-value row shorter than its point set', "", ""),
+ F('C17', 'C17 fri size-1 domain panics', '408aeed', 'fri BuildProofOfProximity panicked for a size-1 polynomial', "", ""),
  # ---- C18
  F("C18", "C18 MillerLoopFixedQ mutates the caller's precomputed lines", "0106fef", "MillerLoopFixedQ / PairFixedQ / PairingCheckFixedQ scaled the caller's precomputed lines in place: a second call with the same lines returned a different value and concurrent callers raced (7 curves)", "C18 pairfixedq bn254 4 5 8 5a7136ad92e8", "ecc/*/pairing.go MillerLoopFixedQ"),
  F("C18", "C18 merkleDamgardHasher aliasing", "16b5b84", "hash.merkleDamgardHasher Sum/State returned the live state slice and Reset/SetState/constructor kept caller slices", "C18 mdhasher bn254 4 2 2 a7201a46bc51", "hash/merkle-damgard.go"),
  # ---- C08
  K("C08", "C08 Vector.ReadFrom allocates the attacker-chosen length", "Vector.ReadFrom / UnmarshalBinary allocate make(Vector, sliceLen) from the 4-byte prefix before reading a single element: a 4-byte input 0xffffffff kills the process (out of memory, not recoverable)", r"^C08 \S+ vecread ", r"^crash:oom", r"^err:short", "ecc/*/f?/vector.go ReadFrom", "C08 bn254_fr vecread ffffffff"),
- K("C08", "C08 Vector.AsyncReadFrom uint32 overflow", "Vector.AsyncReadFrom computes sliceLen*Bytes in uint32: a prefix of floor(2^32/Bytes)(+1) wraps, the call returns success on truncated input and the worker goroutine panics (process dies)", r"^C08 \S+ vecread ", r"^crash:panic", r"^err:short", "ecc/*/f?/vector.go AsyncReadFrom", "C08 koalabear vecread 40000000"),
+ F('C08', 'C08 Vector.AsyncReadFrom uint32 overflow', '0c57d15', 'Vector.AsyncReadFrom computed sliceLen*Bytes in uint32: success on truncated input, then a goroutine panic', "", ""),
  # ---- C07
  K("C07", "C07 NoSubgroupChecks skips the on-curve check (uncompressed)", "with NoSubgroupChecks() the uncompressed branch of setBytes performs no on-curve check: an off-curve point is accepted, also inside slices (documented as a trusted-input mode; behavioural change, not repaired)", r"^C07 (dec \S+ \S+ 0|sdec \S+ 0) ", r"^(ok |g[12]s:)", r"err:(offcurve|batch)", "ecc/*/marshal.go setBytes uncompressed branch", "C07 dec bn254 G1 0 <x=1,y=3>"),
  K("C07", "C07 (x,0) decodes from both sign flags with checks off", "on curves with 2-torsion, the 2-torsion point (x,0) decodes from both the 'smallest' and the 'largest' compressed flag when subgroup checks are off (non-canonical alias)", r"^C07 dec \S+ \S+ 0 ", r"^ok ", r"^err:lex", "ecc/*/marshal.go:927-937", ""),
- K("C07", "C07 stark-curve infinity flag with arbitrary payload", "stark-curve SetBytes accepts the infinity flag with a non-zero payload", r"^C07 (dec stark-curve G1|sdec stark-curve) ", r"(^ok inf|^g1s:)", r"^err:inf", "ecc/stark-curve/marshal.go:580,697", "C07 dec stark-curve G1 1 4000…01"),
+ F('C07', 'C07 stark-curve infinity flag with arbitrary payload', '7f7dab1', 'stark-curve SetBytes accepted the infinity flag with a non-zero payload', "", ""),
  K("C07", "C07 IsInSubGroup accepts order-3 points (bw6-633 G1, bw6-761 G2)", "bw6-633 G1 and bw6-761 G2 IsInSubGroup accept the order-3 points (0, ±sqrt b) outside the r-torsion (the test is [3r]P = 0), so SetBytes with subgroup checks accepts them; also visible through C02 IsInSubGroup and C12 ECDSA key parsing", r"^C07 (dec|insub) bw6-(633 G1|761 G2) ", r"^(ok 0;|1 0)", r"^(err:subgroup|0 0)", "ecc/bw6-633/g1.go:483, ecc/bw6-761/g2.go:493", "C07 insub bw6-633 G1 0;2"),
- K("C07", "C07 BytesRead under-counts a short integer read", "Decoder.BytesRead is not advanced when binary.Read of an integer hits a short read (1 byte consumed from the reader, counter 0)", r"^C07 sdec ", r"err:short n=0 c=1", r"err:short n=1 c=1", "ecc/*/marshal.go:343-346", "C07 sdec bn254 1 0 u16 cf"),
+ F('C07', 'C07 BytesRead under-counts a short integer read', '9465791', 'Decoder.BytesRead was not advanced when a fixed-size integer read was short', "", ""),
 ]
 
 FINDINGS += [
  # ---- C12
  K("C12", "C12 EdDSA Verify accepts non-canonical R (x=0 with sign bit)", "EdDSA Verify accepts a signature whose R encodes x = 0 with the sign bit set (point decompression only negates when signs differ and -0 = 0): two encodings of the same valid signature verify", r"^C12 EDVNC ", r"^1$", r"^err:noncanonical", "ecc/*/twistededwards/point.go SetBytes:94-119", ""),
  K("C12", "C12 EdDSA PublicKey.SetBytes accepts non-canonical keys", "EdDSA PublicKey.SetBytes silently reduces an ordinate y >= q and accepts x = 0 with the sign bit set: Bytes(SetBytes(b)) != b", r"^C12 EDPKNC ", r".", r"^err:noncanonical", "ecc/*/twistededwards/eddsa/marshal.go:40-55, point.go:105", ""),
- K("C12", "C12 EdDSA PrivateKey.SetBytes panics on a longer buffer", "EdDSA PrivateKey.SetBytes checks len < sizePrivateKey only, then subtle.ConstantTimeCopy needs equal lengths: a buffer with trailing bytes panics", r"^C12 EDSKX ", r"^panic", r".", "ecc/*/twistededwards/eddsa/marshal.go:86", ""),
- K("C12", "C12 EdDSA PrivateKey.SetBytes consumed length", "EdDSA PrivateKey.SetBytes reports 3*sizeFr consumed instead of 2*sizeFr+32 (bw6-633: 120 vs 112, bw6-761: 144 vs 128)", r"^C12 EDSKN ", r".", r".", "ecc/*/twistededwards/eddsa/marshal.go:84-87", ""),
- K("C12", "C12 secp256k1 ECDSA PublicKey.SetBytes consumed length", "secp256k1 ECDSA PublicKey.SetBytes reports 32 bytes consumed, the raw X||Y encoding is 64", r"^C12 ECPKN secp256k1 ", r".", r".", "ecc/secp256k1/ecdsa/marshal.go", ""),
+ F('C12', 'C12 EdDSA PrivateKey.SetBytes panics on a longer buffer', '5f799b3', 'EdDSA PrivateKey.SetBytes panicked on a buffer with trailing bytes', "", ""),
+ F('C12', 'C12 EdDSA PrivateKey.SetBytes consumed length', '8ea03ab', 'EdDSA PrivateKey.SetBytes reported 3*sizeFr consumed instead of 2*sizeFr+32', "", ""),
+ F('C12', 'C12 secp256k1 ECDSA PublicKey.SetBytes consumed length', '010409c', 'secp256k1 ECDSA PublicKey.SetBytes reported 32 bytes consumed for a 64-byte encoding', "", ""),
  K("C12", "C12 ECDSA accepts the point at infinity as a public key", "ECDSA PublicKey.SetBytes accepts the encoding of the point at infinity and Verify performs no key validation: with Q = O a forged (r = x([t]G) mod n, s = e/t) verifies for any message (10 curves)", r"^C12 ECVINF ", r"^1$", r"^err:pkinfinity", "ecc/*/ecdsa/ecdsa.go Verify, marshal.go", ""),
  K("C12", "C12 bw6-633 ECDSA key outside the r-torsion", "bw6-633 IsInSubGroup accepts the order-3 points (0,±2) (see C07): ECDSA public keys outside the r-torsion are accepted", r"^C12 ECPKT bw6_633 ", r".", r"^err:subgroup", "ecc/bw6-633/g1.go:483", ""),
  # ---- C13
@@ -84,7 +84,7 @@ FINDINGS += [
 FINDINGS += [
  F("C14", "C14 mimc.Sum package function nil byteOrder", "ffc0a2b", "package-level mimc.Sum(msg) panicked for every non-empty message (zero-value digest, nil byteOrder)", "C14 mimc fn bn254 ... <32 B>", "ecc/*/fr/mimc/mimc.go:166"),
  K("C14", "C14 registered small-field Poseidon2 hashers cannot hash", "POSEIDON2_KOALABEAR / _BABYBEAR / _GOLDILOCKS: NewMerkleDamgardHasher uses BlockSize() = fr.Bytes (4 or 8) and an iv of that size, but Compress demands (t/2)·Bytes = 32 bytes: every non-empty Write fails", r"^C14 md (reg|new) (koalabear|babybear|goldilocks) ", r".", r".", "field/*/poseidon2/hash.go NewMerkleDamgardHasher, poseidon2.go BlockSize/Compress", "C14 md reg koalabear 10 6 15 … W:<32 B> S:-"),
- K("C14", "C14 sis.NewRSis logTwoBound = 0 divides by zero", "NewRSis(_, _, 0, _) panics with an integer divide by zero instead of returning an error", r"^C14 sism? \S+ \S+ \S+ 0 ", r"^panic", r"^err:new", "field/*/sis/sis.go NewRSis", "C14 sis koalabear 5 2 0 4 - 1"),
+ F('C14', 'C14 sis.NewRSis logTwoBound = 0 divides by zero', '31f1c7c', 'NewRSis(_,_,0,_) divided by zero', "", ""),
 ]
 
 FINDINGS += [
@@ -97,9 +97,13 @@ FINDINGS += [
  F('C20', 'C20 GetCoeff with negative shift', '94e1bed', 'GetCoeff panicked (negative index) for a negative shift', 'C20 getcoeff bn254 <q> 7 <w128> <g> 20 lr 1,2 S-1,G   (Go panic; model 2,1)', 'ecc/*/fr/iop/polynomial.go GetCoeff:151-162'),
  F('C20', 'C20 iop.Evaluate with a negatively shifted operand', '94e1bed', 'iop.Evaluate with a negatively shifted operand aborted the process (GetCoeff panic inside a parallel.Execute goroutine)', 'C20 expr bn254 <q> 7 <w128> <g> lr nil 0 1 lr 1,2 -1 2', 'ecc/*/fr/iop/expressions.go Evaluate:57-65; polynomial.go GetCoeff:156'),
  K('C20', 'C20 WriteTo/ReadFrom negative shift', 'WriteTo stores uint32(shift), ReadFrom reads int(uint32): a negative shift comes back as 2^32-|s|', '^C20 (ser \\S+ \\S+ \\S+ \\S+ \\S+ \\S+ \\S+ \\S+ \\S*S-[0-9a-f]+,w|read )', '^([a-z]{2}/|ok \\S+ \\S+ )[89a-f][0-9a-f]{7}[/ ]', '^([a-z]{2}/|ok \\S+ \\S+ )-', 'ecc/*/fr/iop/polynomial.go WriteTo:405 / ReadFrom:456', 'C20 ser bn254 <q> 7 <w128> <g> 20 cr 1,2 S-1,w,F   (Go cr/ffffffff/2/1,2; model cr/-1/2/1,2)'),
- K('C20', 'C20 ToLagrangeCoset on a domain of size 1', 'ToLagrangeCoset reads cosetTable[1]; the table of a domain of cardinality 1 has one entry -> index out of range panic', '^C20 cosetnew \\S+ \\S+ \\S+ \\S+ \\S+ \\S+ \\S+ \\S+ (\\S+,)?K0,', '^panic$', '.', 'ecc/*/fr/iop/polynomial.go ToLagrangeCoset:360-364', 'C20 cosetnew bn254 <q> 7 <w128> <g> 20 cr 5 K0,F'),
- K('C20', 'C20 BuildRatioShuffledVectors with a single pair', 'checkSize iterates j over len(pols) (=2) instead of len(pols[i]): with one numerator/denominator it indexes pols[0][1] -> panic; with more than 2 it leaves pols[i][2..] unchecked; in BuildRatioCopyConstraint (one group) only entries[0] is checked, so inconsistent sizes reach an unrecoverable goroutine panic', '^C20 ratios \\S+ \\S+ \\S+ \\S+ \\S+ \\S+ \\S+ \\S+ 1 ', '^panic$', '.', 'ecc/*/fr/iop/ratios.go checkSize:302-314', 'C20 ratios bn254 <q> 7 <w128> <g> lr 5 - 1 lr 1,2 0 2 lr 2,1 0 2'),
- K('C20', 'C20 ratio builders, LagrangeCoset result: coset shift not recorded', 'putInExpectedFormFromLagrangeRegular (and NewPolynomial / iop.Evaluate results in LagrangeCoset form) leave Polynomial.coset = 0, so Evaluate divides by 0 (=0) and evaluates at 0; the coefficient vector itself is right', '^C20 ratio[sc] \\S+ \\S+ \\S+ \\S+ \\S+ k[rb] \\S+ (\\S+ )?(\\S+ )?[0-9a-f]+ [0-9a-f]+ ', '^k[rb]/', '^k[rb]/', 'ecc/*/fr/iop/ratios.go putInExpectedFormFromLagrangeRegular:276-300; polynomial.go Evaluate:108-110', 'C20 ratios bn254 <q> 7 <w128> <g> kr 5 7 2 lr 1,2 0 2 lr 3,4 0 2 lr 2,1 0 2 lr 4,3 0 2'),
- K('C20', 'C20 EvalEq of zero variables', 'EvalEq([],[]) returns 0 (res is only assigned inside the loop) instead of the empty product 1; MultiLin.Eq on zero variables gives the table [m0] (i.e. 1)', '^C20 evaleq \\S+ \\S+ - ', '^0$', '^1$', 'ecc/*/fr/polynomial/multilin.go EvalEq:127-145', 'C20 evaleq bn254 <q> - -'),
- K('C20', 'C20 Polynomial.Add with empty receiver and an empty operand', 'Add compares &(*p)[0] with &bigger[0] / &smaller[0] whenever the lengths agree: with an empty receiver and an empty (smaller) operand this indexes an empty slice -> panic', '^C20 padd ', '^panic$', '.', 'ecc/*/fr/polynomial/polynomial.go Add:94,101', 'C20 padd bn254 <q> a1 - - 1'),
+ F('C20', 'C20 ToLagrangeCoset on a domain of size 1', 'de7cbd2', 'ToLagrangeCoset panicked on a domain of size 1 (cosetTable[1])', "", ""),
+ F('C20', 'C20 BuildRatioShuffledVectors with a single pair', '2e0cf2c', 'checkSize iterated j over len(pols): BuildRatioShuffledVectors with a single pair panicked, extra polynomials went unchecked', "", ""),
+ F('C20', 'C20 ratio builders, LagrangeCoset result: coset shift not recorded', '6c9b665', 'ratio builders / iop.Evaluate results in LagrangeCoset form left coset = 0 so Evaluate divided by 0', "", ""),
+ F('C20', 'C20 EvalEq of zero variables', '8ab2819', 'EvalEq([],[]) returned 0 instead of 1', "", ""),
+ F('C20', 'C20 Polynomial.Add with empty receiver and an empty operand', '272c0a9', 'Polynomial.Add panicked with an empty receiver and an empty operand', "", ""),
+]
+
+FINDINGS += [
+ K("C13", "C13 MapToCurve1(0) off the isogenous curve (bls12-377 G1, bw6-761 G1)", "MapToCurve1(0) returns (0,0), which is not on the isogenous curve, on bls12-377 G1 (Z = 5) and bw6-761 G1 (Z = 2): g(B'/(Z·A')) is a non-square, i.e. the SSWU constant Z violates find_z_sswu criterion 4 (same root cause as the bw6-761 MapToG1 finding); MapToG1(0) then becomes infinity, which is a valid subgroup point, so only the pre-isogeny op sees it", r"^C13 mapc (bls12-377|bw6-761) g1 .* 0 inf$", r"^1 0 1 1", r"^1 X X X", "ecc/bls12-377/hash_to_curve/g1.go (Z), hash_to_g1.go steps 17-22", "C13 mapc bls12-377 g1 1 <p> <A'> 16 sswu 5 0 inf"),
 ]
